@@ -199,6 +199,15 @@ def gen_cases(rec, rng, tier):
             if len(RP0[0]) <= n:
                 from vt.gen import pdag as _pg
                 yield {'kind': 'pda', 'cls': 'similar_names', 'ref': _pg.rename(RP0, dict(zip(RP0[0], nm))), 'eps': eps0}
+    # LARGE automata: declaration lines (states / final / input_symbols) of several hundred characters (round 14, C16_l: printers that
+    # wrap long lines and a parser that accepts continuation lines only after transition lines)
+    import string
+    for n in (35, 60, 90):
+        yield {'kind': 'dfa', 'cls': 'large_automaton_long_declaration_lines', 'ref': fag.random_dfa(rng, n, 2, p_final=0.9)}
+        yield {'kind': 'nfa', 'cls': 'large_automaton_long_declaration_lines', 'ref': fag.random_nfa(rng, n, 2, eps_density=0.3, density=0.4), 'eps': rng.choice(['_', 'ε'])}
+    wide = string.ascii_letters + string.digits
+    Tw = [(q, a, rng.choice(['q0', 'q1'])) for q in ('q0', 'q1') for a in wide]
+    yield {'kind': 'dfa', 'cls': 'alphabet_of_62_symbols', 'ref': fa.make(['q0', 'q1'], wide, Tw, 'q0', ['q1'])}
     for (cls, R) in fag.hostile_dfas(rng):
         yield {'kind': 'dfa', 'cls': 'dfa_' + cls, 'ref': R}
     for (cls, R) in fag.hostile_nfas(rng):
